@@ -251,6 +251,19 @@ class Case:
             return self.ref.cert_fixpoint(coef, L)
         return self.ref.cert_subdiff(coef)
 
+    def fixpoint_steps(self, coef, strategy=None):
+        """per-unit curvature constants of the prox-gradient residual that `certificate` measures, or None when the
+        certificate is a subdifferential distance (same selection as in `certificate`)."""
+        strategy = strategy or self.strategy
+        name = self.solver_name
+        if strategy == "fixpoint" and name in ("AndersonCD", "GroupBCD", "MultiTaskBCD", "ProxNewton"):
+            if name == "ProxNewton":
+                return np.asarray(self.ref.hess_lipschitz(coef), float)
+            if name == "GroupBCD":
+                return np.asarray(self.ref.group_lipschitz(), float)
+            return np.asarray(self.ref.lipschitz(), float)
+        return None
+
     def describe(self):
         s = self.spec
         return dict(solver=self.solver_name, datafit=self.df_name, penalty=self.pen_name, storage=self.storage,
